@@ -95,6 +95,7 @@ def _monitor_runs(ctx, runs):
         for k, p in enumerate(polls):
             if "shim_error" in p:
                 continue
+            p["forced"] = bool(prob.get("opts", {}).get("force_poll_mesh"))
             r = P.monitor_poll_step(p)
             if r:
                 rp = dict(kind="poll_run", problem=prob["name"], seed=seed, poll_index=k, iter=p.get("iter"),
@@ -170,6 +171,8 @@ def tie(ctx, broken):
     flat = [(pr, sd, k, p) for pr, sd, pl, _ in runs for k, p in enumerate(pl)]
     coqr, idx, unbuilt = [], [], 0
     for pr, sd, k, p in flat:
+        if pr.get("opts", {}).get("force_poll_mesh"):
+            continue          # the poll set is additionally snapped to the search grid: outside the model, judged by the monitor only
         s = P.coq_run_case(p)
         if s is None:
             if p["evald"] or "shim_error" in p:
